@@ -464,6 +464,16 @@ def one_case(ctx, rng, idx, out):
             except Unsupported:
                 continue
             out["vm"].append(("sx_load default_world %s" % P.prog_coq(ops), expected, dict(case, corr="vm", generation=gen_i + 1)))
+            if gen_i == 0 and not kw:      # ordered mode: the payload as the Delta application model reads it
+                try:
+                    from harness import deltacommon as DC
+                    obs = DC.delta_obs(rr["result"])
+                    if not any(e and e[0] == "UNEXPECTED-CATEGORY" for e in obs):
+                        b_ = "true" if bid else "false"
+                        out["dlt"].append(("SL [sx_loaded_delta default_world %s %s; sx_reencoded_delta default_world %s %s]" % (
+                            b_, P.prog_coq(ops), b_, P.prog_coq(ops)), [obs, obs], dict(case, corr="delta-model")))
+                except Exception:
+                    ctx.count("corr:delta-model-outside-universe")
             shared = _shares_mutable(rr["result"])
             ctx.count("dump:with-shared-mutable-container" if shared else "dump:no-shared-mutable-container")
             out["acc"].append(("(%s, %s)" % (P.prog_coq(ops), pcoq), shared, dict(case, corr="accepts", generation=gen_i + 1, shared=shared)))
@@ -979,7 +989,7 @@ def fixed_witnesses(ctx):
 
 def run(ctx):
     n = 2600 if ctx.thorough else 640
-    out = {"vm": [], "enc": [], "json": [], "acc": [], "enc_max": 600 if ctx.thorough else 160}
+    out = {"vm": [], "enc": [], "json": [], "acc": [], "dlt": [], "enc_max": 600 if ctx.thorough else 160}
     for i in range(n):
         one_case(ctx, ctx.rng, i, out)
     exotic_stream(ctx)
@@ -988,6 +998,9 @@ def run(ctx):
     ctx.coq_cases("c14_vm", hdr, out["vm"], shard=60, label="real dumps on the model VM")
     ctx.coq_cases("c14_json", hdr, out["json"], shard=120, label="json value + json round trip")
     accepts_part(ctx, out["acc"])
+    from harness import deltacommon as DC
+    ctx.coq_cases("c14_delta", DC.HDR[:-1] + " Pickle.Vm Pickle.Codec Pickle.DeltaCodec Pickle.DeltaCodecShow.\nLocal Open Scope Z_scope.",
+                  out["dlt"], shard=60, label="decoded dump read as a delta of the application model")
     encoder_part(ctx, out["enc"])
     if out["vm"]:
         ctx.sample({"case": out["vm"][0][2], "expected": out["vm"][0][1]})
